@@ -40,10 +40,21 @@ static unsigned g_copy_toggle; static uint8_t g_copy_pool[sizeof(Skinny128Key_t)
 static int real_skinny(int bs, const uint8_t *key, int klen, int dir,
                        const uint8_t *in, uint8_t *out)
 {
+    /* every eighth case pair: the key bytes touch the schedule object (a struct holding both, or neighbours on the
+     * stack) - directly before it, directly after it; neither overlaps it */
+    int adjsel = (in[bs - 2] ^ key[klen / 2] ^ (in[0] >> 3)) & 7;
+    static struct { uint8_t pre[64]; Skinny128Key_t ks; uint8_t post[64]; } adj128;
+    static struct { uint8_t pre[64]; Skinny64Key_t ks; uint8_t post[64]; } adj64;
     key = isolated_key(key, klen);
     if (bs == 16) {
         Skinny128Key_t ks;
         verif_paint_obj(&ks, sizeof(ks)); verif_paint_stack();
+        if (adjsel >= 6) {
+            uint8_t *kp = adjsel == 6 ? adj128.pre + 64 - klen : adj128.post;
+            memset(&adj128, 0xA5, sizeof(adj128)); memcpy(kp, key, (size_t)klen);
+            if (skinny128_set_key(&adj128.ks, kp, (unsigned)klen) != 1) return 0;
+            memcpy(&ks, &adj128.ks, sizeof(ks));
+        } else
         if (skinny128_set_key(&ks, key, (unsigned)klen) != 1) return 0;
         out_digest("skinny128-schedule", ks.schedule, ks.rounds * sizeof(ks.schedule[0]));
         verif_paint_stack();
@@ -58,6 +69,12 @@ static int real_skinny(int bs, const uint8_t *key, int klen, int dir,
     } else {
         Skinny64Key_t ks;
         verif_paint_obj(&ks, sizeof(ks)); verif_paint_stack();
+        if (adjsel >= 6) {
+            uint8_t *kp = adjsel == 6 ? adj64.pre + 64 - klen : adj64.post;
+            memset(&adj64, 0xA5, sizeof(adj64)); memcpy(kp, key, (size_t)klen);
+            if (skinny64_set_key(&adj64.ks, kp, (unsigned)klen) != 1) return 0;
+            memcpy(&ks, &adj64.ks, sizeof(ks));
+        } else
         if (skinny64_set_key(&ks, key, (unsigned)klen) != 1) return 0;
         out_digest("skinny64-schedule", ks.schedule, ks.rounds * sizeof(ks.schedule[0]));
         verif_paint_stack();
